@@ -1,9 +1,9 @@
 CONSTANTS
   Spaces = {"w1", "w2", "w3"}
   Order <- MCOrder
-  ChanCap = 3
+  ChanCap = 2
 SPECIFICATION ASpec
-CONSTRAINT QueueSmall
+CONSTRAINT QueueTiny
 INVARIANTS TwoParts TypeOK AtMostOnePlotting PlottingIsCurrent PendingKnown
 PROPERTIES StopAllQuiets MineStartsMiner MinerOffOnlyByStop LockRefusedWhileMining KeeperStartsUnlocked
 CHECK_DEADLOCK FALSE
